@@ -113,7 +113,8 @@ func genETy(s Src, depth int) *ETy {
 	case k == 8:
 		return &ETy{K: "struct", Name: "S"}
 	default:
-		return &ETy{K: "enum", Name: "Color"}
+		// (enums are not valid event parameter types; T nests a struct and an array)
+		return &ETy{K: "struct", Name: "T"}
 	}
 }
 
@@ -226,6 +227,13 @@ func genEVal(s Src, t *ETy, q string) *EVal {
 		}
 		v.Lit = "{" + strings.Join(parts, ", ") + "}"
 	case "struct":
+		if t.Name == "T" {
+			a := genEVal(s, &ETy{K: "struct", Name: "S"}, q)
+			b := genEVal(s, &ETy{K: "arr", E: &ETy{K: "prim", Name: "UInt8"}}, q)
+			v.El, v.Fields = []*EVal{a, b}, []string{"s", "xs"}
+			v.Lit = fmt.Sprintf("%sT(s: %s, xs: %s)", q, a.Lit, b.Lit)
+			break
+		}
 		a := genEVal(s, &ETy{K: "prim", Name: "Int"}, q)
 		b := genEVal(s, &ETy{K: "opt", E: &ETy{K: "prim", Name: "String"}}, q)
 		v.El, v.Fields = []*EVal{a, b}, []string{"a", "b"}
@@ -290,8 +298,8 @@ func GenEventCase(s Src) *EventCase {
 	var e strings.Builder
 	w := func(f string, a ...any) { fmt.Fprintf(&e, f+"\n", a...) }
 	w("access(all) contract E {")
-	w("  access(all) struct S { access(all) let a: Int; access(all) let b: String?; init(a: Int, b: String?) { self.a = a; self.b = b } }")
-	w("  access(all) enum Color: UInt8 { access(all) case red; access(all) case green; access(all) case blue }")
+	w("  access(all) struct S { access(all) let a: Int; access(all) let b: String?; view init(a: Int, b: String?) { self.a = a; self.b = b } }")
+	w("  access(all) struct T { access(all) let s: S; access(all) let xs: [UInt8]; view init(s: S, xs: [UInt8]) { self.s = s; self.xs = xs } }")
 	for _, d := range c.Decls[:nev] {
 		var ps []string
 		for i := range d.Params {
